@@ -36,6 +36,13 @@ func levelAModels(thorough bool) []sysCfg {
 		// two idle instances, probes every third tick, cloud list every seventh: a start command that reaches the VM late
 		// overlapping a probe whose answer is late (two late messages)
 		{Name: "1c-pre2-late2", MaxCtr: 1, Cap: 2, Types: "A", Prios: "1", PreInst: "AA", Events: "slow-req-detach slow-list slow-detach", Budget: 2, Depth: 12, ProbeTicks: 3, SyncTicks: 7},
+		// a queue poll whose answer is late, overlapping the dispatcher's own unlock (cloud at quota) or
+		// requeue / cancel (process gone): the late answer must not overwrite the newer local result
+		{Name: "1c-1i-poll", MaxCtr: 1, Cap: 1, Types: "A", Prios: "1", Events: "wait createquota crash slow-poll-mine slow-poll-queued slow-poll-missing", Budget: 2, Depth: 13},
+		// two containers, two instances, queue polled every third tick: an instance that never boots is
+		// replaced, the replacement hits a quota error and a Locked container is unlocked while a poll
+		// that already listed it as Locked is under way (late answer); then the other instance becomes free
+		{Name: "2c-2i-poll3", MaxCtr: 2, Cap: 2, Types: "A", Prios: "1", Events: "createquota slow-poll-queued", Budget: 2, Depth: 15, PollTicks: 3},
 	}
 	if thorough {
 		ms = []sysCfg{
@@ -44,6 +51,8 @@ func levelAModels(thorough bool) []sysCfg {
 			{Name: "2c-1i-f0", MaxCtr: 2, Cap: 1, Types: "A", Prios: "12", Events: user, Budget: 0, Depth: 14},
 			{Name: "2c-2i-f1", MaxCtr: 2, Cap: 2, Types: "AB", Prios: "1", Events: "cancel crash restart hold drain", Budget: 1, Depth: 11},
 			{Name: "3c-2i-f0", MaxCtr: 3, Cap: 2, Types: "A", Prios: "12", Events: "cancel", Budget: 0, Depth: 10},
+			{Name: "1c-1i-poll", MaxCtr: 1, Cap: 1, Types: "A", Prios: "1", Events: "wait createquota crash slow-poll-mine slow-poll-queued slow-poll-missing", Budget: 2, Depth: 16},
+			{Name: "2c-2i-poll3", MaxCtr: 2, Cap: 2, Types: "A", Prios: "12", Events: "createquota slow-poll-queued slow-poll-mine", Budget: 2, Depth: 18, PollTicks: 3},
 		}
 	}
 	return ms
@@ -86,6 +95,13 @@ func TestVerifC14A(t *testing.T) {
 			}
 		}
 		models = keep
+	}
+	if js := os.Getenv("C14_CFG"); js != "" {
+		var c sysCfg
+		if err := json.Unmarshal([]byte(js), &c); err != nil {
+			t.Fatal(err)
+		}
+		models = []sysCfg{c}
 	}
 	capS := 150
 	if vrep.Thorough() {
